@@ -294,12 +294,12 @@ theorem accepted_is_leader_shred_partial (env : Env) (L : env.Laws) (v : Variant
     cases ls
     simp_all
 
-/-! ### the blockstore's equivocation gate -/
+/-! ### the blockstore's equivocation gate: the pinned gate `Gate.addOld` (core of `Gate.add`) -/
 
 /-- a shred that passes the gate leaves its commitment in the cache and the leader unflagged -/
-theorem gate_pass_caches (g : Gate) (a : VShred) (hg : g.misbehaved = false) (hpass : (g.add a).2 = .pass) :
-    (g.add a).1.cached a.shred.header.sliceIdx = some a.commitment ∧ (g.add a).1.misbehaved = false := by
-  unfold Gate.add at hpass ⊢
+theorem gateOld_pass_caches (g : Gate) (a : VShred) (hg : g.misbehaved = false) (hpass : (g.addOld a).2 = .pass) :
+    (g.addOld a).1.cached a.shred.header.sliceIdx = some a.commitment ∧ (g.addOld a).1.misbehaved = false := by
+  unfold Gate.addOld at hpass ⊢
   simp only [hg, Bool.false_eq_true, if_false] at hpass ⊢
   cases hc : g.cached a.shred.header.sliceIdx with
   | some c =>
@@ -333,16 +333,16 @@ theorem gate_pass_caches (g : Gate) (a : VShred) (hg : g.misbehaved = false) (hp
       simp only [hl] at hpass ⊢
       split at hpass <;> simp_all [Gate.cached]
 
-/-- **Two different commitments for one slot and slice are reported in both arrival orders**: whichever of two
+/-- (pinned gate; for `Gate.add` see `gate_conflict_reported` below) two different commitments for one slot and slice are reported in both arrival orders: whichever of two
     validated shreds with the same slice index and different commitments reaches an unflagged block data first,
     the other one is answered with `Equivocation` and the leader is flagged. -/
-theorem gate_conflict_reported (g : Gate) (a b : VShred) (hg : g.misbehaved = false)
+theorem gateOld_conflict_reported (g : Gate) (a b : VShred) (hg : g.misbehaved = false)
     (hidx : a.shred.header.sliceIdx = b.shred.header.sliceIdx) (hne : a.commitment ≠ b.commitment)
-    (hpass : (g.add a).2 = .pass) :
-    ((g.add a).1.add b).2 = .equivocation ∧ (((g.add a).1.add b).1).misbehaved = true := by
-  obtain ⟨h1, h2⟩ := gate_pass_caches g a hg hpass
-  generalize (g.add a).1 = g' at *
-  unfold Gate.add
+    (hpass : (g.addOld a).2 = .pass) :
+    ((g.addOld a).1.addOld b).2 = .equivocation ∧ (((g.addOld a).1.addOld b).1).misbehaved = true := by
+  obtain ⟨h1, h2⟩ := gateOld_pass_caches g a hg hpass
+  generalize (g.addOld a).1 = g' at *
+  unfold Gate.addOld
   rw [hidx] at h1
   simp [h2, h1, hne]
 
@@ -362,14 +362,14 @@ def VShred.FromBlock (C : Nat → Commitment) (last : Option Nat) (v : VShred) :
 theorem gate_empty_consistent (C : Nat → Commitment) (last : Option Nat) : ({} : Gate).Consistent C last :=
   by unfold Gate.Consistent; simp
 
-/-- **A correct leader is never flagged by the gate** (`honest_never_flagged`, gate part): no sequence of
+/-- (pinned gate; the statement for `Gate.add` is `gate_honest_never_flagged` below) a correct leader is never flagged by the gate (`honest_never_flagged`, gate part): no sequence of
     validated shreds that all belong to one block — one commitment per slice index, the last flag exactly on
     the last slice, no slice beyond it — makes `add_shred` answer `Equivocation` or `InvalidShred`, in any
     arrival order and with any duplicates. `_partial`: what happens *after* the gate is C13; on the unchanged
     tree a relayed tag flip (D15) makes the later reconstruction fail and flags the correct leader. -/
-theorem gate_honest_never_flagged_partial (C : Nat → Commitment) (last : Option Nat) (g : Gate) (v : VShred)
+theorem gateOld_honest_never_flagged (C : Nat → Commitment) (last : Option Nat) (g : Gate) (v : VShred)
     (hg : g.Consistent C last) (hv : v.FromBlock C last) :
-    (g.add v).2 = .pass ∧ (g.add v).1.Consistent C last := by
+    (g.addOld v).2 = .pass ∧ (g.addOld v).1.Consistent C last := by
   obtain ⟨hm, hcache, hlast, hbound⟩ := hg
   obtain ⟨hc, hl1, hl2⟩ := hv
   have hfind : ∀ c, g.cached v.shred.header.sliceIdx = some c → c = v.commitment := by
@@ -421,7 +421,7 @@ theorem gate_honest_never_flagged_partial (C : Nat → Commitment) (last : Optio
       ((v.shred.header.sliceIdx, v.commitment) :: g.cache).any (fun e => decide (e.1 > v.shred.header.sliceIdx)) = false := by
     intro hb
     rw [List.any_cons, hnobeyond hb]; simp
-  unfold Gate.Consistent Gate.add
+  unfold Gate.Consistent Gate.addOld
   simp only [hm, Bool.false_eq_true, if_false]
   cases hcd : g.cached v.shred.header.sliceIdx with
   | some c =>
@@ -456,6 +456,95 @@ theorem gate_honest_never_flagged_partial (C : Nat → Commitment) (last : Optio
       have := hlastok l hgl
       simp [hm, hgl, this]
       exact ⟨⟨hc, fun a b h => hcache (a, b) h⟩, by simpa [hgl] using hlast, hl2, fun a b h l hl => hbound (a, b) h l hl⟩
+
+
+/-! ### the gate after the D15 `fix:` (`Gate.add`): a shred whose data/coding type does not fit its index is dropped -/
+
+theorem gate_add_of_typeOk (g : Gate) (v : VShred) (hg : g.misbehaved = false) (ht : v.shred.typeOk = true) :
+    g.add v = g.addOld v := by
+  unfold Gate.add; simp [hg, ht]
+
+/-- a shred of the wrong type changes nothing and blames nobody -/
+theorem gate_add_wrongType (g : Gate) (v : VShred) (hg : g.misbehaved = false) (ht : v.shred.typeOk = false) :
+    g.add v = (g, .wrongType) := by
+  unfold Gate.add; simp [hg, ht]
+
+theorem gate_pass_typeOk (g : Gate) (v : VShred) (hg : g.misbehaved = false) (hpass : (g.add v).2 = .pass) :
+    v.shred.typeOk = true := by
+  cases ht : v.shred.typeOk with
+  | true => rfl
+  | false => rw [gate_add_wrongType g v hg ht] at hpass; cases hpass
+
+/-- a shred that passes the gate leaves its commitment in the cache and the leader unflagged -/
+theorem gate_pass_caches (g : Gate) (a : VShred) (hg : g.misbehaved = false) (hpass : (g.add a).2 = .pass) :
+    (g.add a).1.cached a.shred.header.sliceIdx = some a.commitment ∧ (g.add a).1.misbehaved = false := by
+  have ht := gate_pass_typeOk g a hg hpass
+  rw [gate_add_of_typeOk g a hg ht] at hpass ⊢
+  exact gateOld_pass_caches g a hg hpass
+
+/-- **Two different commitments for one slot and slice are never silently accepted, in both arrival orders**:
+    whichever of two validated shreds with the same slice index and different commitments is stored by an unflagged
+    block data first, the other one is answered with `Equivocation` and the leader is flagged - unless its
+    data/coding type does not fit its index: then (D15 `fix:`) it is dropped as `WrongType` and the block data does
+    not change (the blockstore cannot tell a relay's alteration from the leader's doing; the *node* still reports
+    the conflict, because `try_new` answers `Equivocation` before the type is looked at: `node_conflict_reported`,
+    whose statement is unchanged). Statement change forced by the fix: on the pinned gate the first clause held
+    without the premise `typeOk` (`gateOld_conflict_reported`). -/
+theorem gate_conflict_reported (g : Gate) (a b : VShred) (hg : g.misbehaved = false)
+    (hidx : a.shred.header.sliceIdx = b.shred.header.sliceIdx) (hne : a.commitment ≠ b.commitment)
+    (hpass : (g.add a).2 = .pass) :
+    (b.shred.typeOk = true →
+      ((g.add a).1.add b).2 = .equivocation ∧ (((g.add a).1.add b).1).misbehaved = true) ∧
+    (b.shred.typeOk = false → (g.add a).1.add b = ((g.add a).1, .wrongType)) := by
+  have hta := gate_pass_typeOk g a hg hpass
+  have hm := (gate_pass_caches g a hg hpass).2
+  refine ⟨fun htb => ?_, fun htb => gate_add_wrongType _ b hm htb⟩
+  rw [gate_add_of_typeOk _ b hm htb]
+  rw [gate_add_of_typeOk g a hg hta] at hpass ⊢
+  exact gateOld_conflict_reported g a b hg hidx hne hpass
+
+/-- **A correct leader is never flagged by the gate** (`honest_never_flagged`, gate part, at full strength since the
+    D15 `fix:`): a validated shred that belongs to the leader's block — its commitment is the block's commitment for
+    its slice, the last flag sits exactly on the last slice, no slice beyond it; *its data/coding type may have been
+    flipped by whoever passed it on* — is answered `pass` (iff the type fits the index) or `WrongType`, never
+    `Equivocation` / `InvalidShred`, and the gate stays consistent and unflagged. -/
+theorem gate_honest_never_flagged (C : Nat → Commitment) (last : Option Nat) (g : Gate) (v : VShred)
+    (hg : g.Consistent C last) (hv : v.FromBlock C last) :
+    ((g.add v).2 = .pass ∨ (g.add v).2 = .wrongType) ∧ ((g.add v).2 = .pass ↔ v.shred.typeOk = true) ∧
+      (g.add v).1.Consistent C last := by
+  have hm : g.misbehaved = false := hg.1
+  cases ht : v.shred.typeOk with
+  | true =>
+    rw [gate_add_of_typeOk g v hm ht]
+    obtain ⟨h1, h2⟩ := gateOld_honest_never_flagged C last g v hg hv
+    exact ⟨Or.inl h1, ⟨fun _ => rfl, fun _ => h1⟩, h2⟩
+  | false =>
+    rw [gate_add_wrongType g v hm ht]
+    exact ⟨Or.inr rfl, ⟨(fun h => by cases h), (fun h => by cases h)⟩, hg⟩
+
+/-- the blockstore's gate fed a whole sequence of validated shreds -/
+def Gate.run (g : Gate) : List VShred → Gate × List GateVerdict
+  | [] => (g, [])
+  | v :: rest => ((g.add v).1.run rest).1 |> fun g' => (g', (g.add v).2 :: ((g.add v).1.run rest).2)
+
+/-- **`honest_never_flagged` for every sequence** (any order, duplicates, relayed tag flips): validated shreds that
+    all belong to one block of a correct leader never make the gate answer `Equivocation` or `InvalidShred`, and the
+    leader ends unflagged. -/
+theorem honest_never_flagged (C : Nat → Commitment) (last : Option Nat) (g : Gate) (vs : List VShred)
+    (hg : g.Consistent C last) (hvs : ∀ v ∈ vs, v.FromBlock C last) :
+    (∀ r ∈ (g.run vs).2, r = .pass ∨ r = .wrongType) ∧ (g.run vs).1.Consistent C last ∧
+      (g.run vs).1.misbehaved = false := by
+  induction vs generalizing g with
+  | nil => exact ⟨by intro r hr; simp [Gate.run] at hr, hg, hg.1⟩
+  | cons v rest ih =>
+    obtain ⟨h1, _, h3⟩ := gate_honest_never_flagged C last g v hg (hvs v List.mem_cons_self)
+    obtain ⟨i1, i2, i3⟩ := ih (g.add v).1 h3 (fun x hx => hvs x (List.mem_cons_of_mem _ hx))
+    simp only [Gate.run]
+    refine ⟨?_, i2, i3⟩
+    intro r hr
+    rcases List.mem_cons.mp hr with rfl | hr
+    · exact h1
+    · exact i1 r hr
 
 /-- the commitment cache of the gate is sound for the leader key: entry by entry, `sigs` holds the leader's
     signature over the commitment `cache` holds for the same slice index -/
@@ -507,9 +596,14 @@ theorem gate_add_sigsound (pk : Nat) (g : Gate) (v : VShred) (hg : g.SigSound pk
       ((g.add v).1.cache = (v.shred.header.sliceIdx, v.commitment) :: g.cache ∧
         (g.add v).1.sigs = (v.shred.header.sliceIdx, v.shred.sig) :: g.sigs) := by
     unfold Gate.add
-    dsimp only
-    repeat' split
-    all_goals simp
+    split
+    · simp
+    · split
+      · simp
+      · unfold Gate.addOld
+        dsimp only
+        repeat' split
+        all_goals simp
   unfold Gate.SigSound
   rcases key with ⟨h1, h2⟩ | ⟨h1, h2⟩
   · rw [h1, h2]; exact hg
@@ -526,7 +620,11 @@ theorem node_cache_sound (env : Env) (g : Gate) (s : Shred) (pk : Nat) (hg : g.S
   refine ⟨?_, fun v hv => (accepted_entry_sound env s pk _ hs v hv).1⟩
   unfold Gate.nodeHandle
   cases hv : validate env s (g.cachedEntry s.header.sliceIdx) pk with
-  | ok v => exact gate_add_sigsound pk g v hg (accepted_entry_sound env s pk _ hs v hv).1
+  | ok v =>
+    simp only
+    split
+    · exact hg
+    · exact gate_add_sigsound pk g v hg (accepted_entry_sound env s pk _ hs v hv).1
   | error e => cases e <;> exact hg
 
 theorem gate_empty_sigsound (pk : Nat) : ({} : Gate).SigSound pk := trivial
@@ -559,6 +657,106 @@ theorem node_invalid_ignored (env : Env) (g : Gate) (s : Shred) (pk : Nat)
 theorem node_unsigned_ignored (env : Env) (g : Gate) (s : Shred) (pk : Nat) (hg : g.SigSound pk)
     (hsig : s.sig ≠ .signed pk (s.claimed env)) : g.nodeHandle env s pk = g :=
   node_invalid_ignored env g s pk (unsigned_rejected env s pk _ (gate_entry_sound pk g hg _) hsig)
+
+/-! ### `honest_never_flagged` at node level, and what the node stores for a correct leader (D15 `fix:`) -/
+
+/-- What a correct leader with key `pk` means for the shreds of one slot, in the symbolic signature model: every
+    signature of `pk` that occurs on a shred is over a commitment of the leader's one block for the slot
+    (commitment `C i` for slice `i`, the last flag exactly on the last slice `last`, no slice beyond it).
+    Nothing is assumed about the rest of the shred: payload, index, path, type, header, other signatures. -/
+def LeaderSignedOnly (pk : Nat) (C : Nat → Commitment) (last : Option Nat) (s : Shred) : Prop :=
+  ∀ c, s.sig = .signed pk c →
+    c = C c.sliceIdx ∧ (c.isLast = true ↔ last = some c.sliceIdx) ∧ (∀ l, last = some l → c.sliceIdx ≤ l)
+
+/-- `handle_disseminator_shred` on a sequence of received shreds -/
+def Gate.nodeRun (env : Env) (pk : Nat) (g : Gate) (ss : List Shred) : Gate :=
+  ss.foldl (fun g s => g.nodeHandle env s pk) g
+
+theorem gate_cachedEntry_commitment (C : Nat → Commitment) (last : Option Nat) (g : Gate) (hg : g.Consistent C last)
+    (idx : Nat) (e : Cached) (he : g.cachedEntry idx = some e) : e.commitment = C idx := by
+  unfold Gate.cachedEntry Gate.cached at he
+  cases hf : g.cache.find? (·.1 == idx) with
+  | none => simp [hf] at he
+  | some p =>
+    simp only [hf, Option.map_some, Option.some.injEq] at he
+    have := hg.2.1 p (List.mem_of_find?_eq_some hf)
+    have hk := List.find?_some hf
+    simp only [beq_iff_eq] at hk
+    rw [← he]; simp only; rw [this, hk]
+
+/-- one step of `node_honest_never_flagged` -/
+theorem node_honest_step (env : Env) (pk : Nat) (C : Nat → Commitment) (last : Option Nat) (g : Gate) (s : Shred)
+    (hg : g.Consistent C last) (hsnd : g.SigSound pk) (hs : LeaderSignedOnly pk C last s) :
+    (g.nodeHandle env s pk).Consistent C last ∧ (g.nodeHandle env s pk).SigSound pk := by
+  refine ⟨?_, (node_cache_sound env g s pk hsnd).1⟩
+  have hcs := gate_entry_sound pk g hsnd s.header.sliceIdx
+  unfold Gate.nodeHandle
+  cases hv : validate env s (g.cachedEntry s.header.sliceIdx) pk with
+  | error e =>
+    cases e with
+    | invalidSignature => exact hg
+    | equivocation =>
+      -- impossible: the cached commitment and the claimed one are both the block's commitment for this slice
+      exfalso
+      obtain ⟨e, he, hne, hsig⟩ := equivocation_only_if_two_signed env s _ pk hv
+      have h1 := (hs _ hsig).1
+      have h2 := gate_cachedEntry_commitment C last g hg _ e he
+      apply hne
+      rw [h2, h1]; rfl
+  | ok v =>
+    simp only
+    split
+    · exact hg
+    · obtain ⟨_, hsig, _, rfl⟩ := (accept_iff_signed env s pk _ hcs v).mp hv
+      obtain ⟨h1, h2, h3⟩ := hs _ hsig
+      have hfb : VShred.FromBlock C last ⟨s, s.sliceRoot env⟩ := ⟨h1, h2, h3⟩
+      exact (gate_honest_never_flagged C last g _ hg hfb).2.2
+
+/-- **No shred whatsoever can make a node report a correct leader** (the last clause of C12 at node level, for the
+    part of `handle_disseminator_shred` the gate models): whatever sequence of shreds a node receives for a slot
+    of a correct leader — genuine ones in any order with duplicates, shreds with altered payload / index / path /
+    header / signature, replays from other slices, genuine shreds with the data/coding type flipped by a relay —
+    the leader is never flagged and the commitment cache only ever holds the leader's commitments.
+    (What happens to the stored shreds afterwards - reconstruction - is C13 `honest_never_flagged`, which applies
+    because what is stored is the leader's own shred, type included: `gate_stores_leader_shred`.) -/
+theorem node_honest_never_flagged (env : Env) (pk : Nat) (C : Nat → Commitment) (last : Option Nat) (g : Gate)
+    (ss : List Shred) (hg : g.Consistent C last) (hsnd : g.SigSound pk)
+    (hss : ∀ s ∈ ss, LeaderSignedOnly pk C last s) :
+    (g.nodeRun env pk ss).Consistent C last ∧ (g.nodeRun env pk ss).misbehaved = false := by
+  suffices h : (g.nodeRun env pk ss).Consistent C last ∧ (g.nodeRun env pk ss).SigSound pk from ⟨h.1, h.1.1⟩
+  induction ss generalizing g with
+  | nil => exact ⟨hg, hsnd⟩
+  | cons s rest ih =>
+    obtain ⟨h1, h2⟩ := node_honest_step env pk C last g s hg hsnd (hss s List.mem_cons_self)
+    exact ih (g.nodeHandle env s pk) h1 h2 (fun x hx => hss x (List.mem_cons_of_mem _ hx))
+
+/-- **What the blockstore stores for a correct leader's slice is the leader's own shred, type included** (D15
+    `fix:`): if a shred validated (any sound cache state) under the leader's signature for a slice of the regular
+    shredder passes the gate, it *is* the leader's shred at its index - `accepted_is_leader_shred_partial` without
+    the exception for the data/coding type. At the level of `try_new` alone the exception remains
+    (`tag_not_bound_witness`): the type is still not authenticated, it is the consumers that drop a wrong one. -/
+theorem gate_stores_leader_shred (env : Env) (L : env.Laws) (sl : Slice) (sk : Nat) (key : Bytes)
+    (s : Shred) (x : VShred) (cached : Option Cached) (hcache : CacheSound sk cached)
+    (hsig : s.sig = .signed sk (commit sl.header (leaderTree env .regular sl key).root))
+    (hok : validate env s cached sk = .ok x)
+    (g : Gate) (hg : g.misbehaved = false) (hpass : (g.add x).2 = .pass) :
+    (leaderOut env .regular sl sk key)[s.index]? = some x := by
+  obtain ⟨hidx, l, hl, hs, hx⟩ := accepted_is_leader_shred_partial env L .regular sl sk key s x cached hcache hsig hok
+  have ht := gate_pass_typeOk g x hg hpass
+  obtain ⟨hroot, hli, _, hld, _, _, _⟩ := leaderOut_get env .regular sl sk key s.index l hl
+  have hxs : x.shred = s := by rw [hx]
+  have hdata : s.isData = l.shred.isData := by
+    rw [hxs] at ht
+    simp only [Shred.typeOk, beq_iff_eq] at ht
+    rw [ht, hld]; rfl
+  rw [hl]; congr 1
+  rw [hx]
+  cases l with
+  | mk ls lr =>
+    simp only at hs hroot hdata ⊢
+    rw [hroot]
+    congr 1
+    rw [hs, hdata]
 
 /-! ### what a node stores and serves carries the leader's signature (D34 `fix:`) -/
 
@@ -696,6 +894,17 @@ theorem tag_not_bound_witness :
     errIs (validate toyEnv { wS with index := 4 } none 5) .invalidSignature ∧
     errIs (validate toyEnv { wS with index := 4 } (some (wOut.getD 40 default).cacheEntry) 5) .invalidSignature ∧
     errIs (validate toyEnv wS none 6) .invalidSignature := by
+  decide +kernel
+
+/-- **Witness of the D15 repair at the gate**: the pinned gate (`Gate.addOld`) lets the tag-flipped, validated shred
+    pass - it is cached and stored, and `deshred` then fails (`tag_not_bound_witness`) -; `Gate.add` answers
+    `WrongType` and stays as it was, and the genuine shred at that index passes afterwards. -/
+theorem tag_flip_gate_old_witness :
+    (({} : Gate).addOld ⟨wFlipped, (wOut.getD 3 default).root⟩).2 = .pass ∧
+    ({} : Gate).add ⟨wFlipped, (wOut.getD 3 default).root⟩ = ({}, .wrongType) ∧
+    (({} : Gate).add (wOut.getD 3 default)).2 = .pass ∧
+    (({} : Gate).nodeHandle toyEnv wFlipped 5) = {} ∧
+    (({} : Gate).nodeHandle toyEnv wS 5).cached 3 = some (wOut.getD 3 default).commitment := by
   decide +kernel
 
 /-! #### the index alias of short trees (defect D32, repaired) -/
